@@ -1,4 +1,4 @@
-import PyRatesModel.Props.C06
+import PyRatesModel.Front.Paths
 import Driver.Proto
 namespace PyRates.Driver
 open Lean PyRates.Paths
